@@ -1,4 +1,6 @@
-use crate::code::utils::line_break_pos_finder::find_next_line_break_pos;
+use crate::code::utils::line_break_pos_finder::{
+    find_next_line_break_pos, find_prev_line_break_pos,
+};
 
 use super::Formatter;
 pub struct NextLineBreakRemover {}
@@ -31,6 +33,14 @@ impl Formatter for NextLineBreakRemover {
     /// ```
     fn format(&self, content: &str, byte_pos: usize) -> (usize, usize) {
         let bytes = content.as_bytes();
+
+        // Blank lines can only start at the removal position if the position is at the head of
+        // its line (nothing but blanks since the previous line break).
+        let is_line_head =
+            byte_pos == 0 || find_prev_line_break_pos(content, bytes, byte_pos, true).is_some();
+        if !is_line_head {
+            return (byte_pos, byte_pos);
+        }
 
         let line_break_pos = find_next_line_break_pos(content, bytes, byte_pos, true)
             .and_then(|pos| find_next_line_break_pos(content, bytes, pos + 1, true));
